@@ -53,7 +53,7 @@ Init == /\ shape \in Shapes /\ flat = <<>> /\ base = <<>> /\ cur = <<>> /\ how =
         /\ bres = NoDiag /\ cres = NoDiag
 
 Extend(v) ==
-  /\ how = "build"
+  /\ how = "build" /\ v < shape[3]
   /\ LET M == shape[1]
          N == shape[2]
          f == Append(flat, v)
@@ -69,13 +69,13 @@ Transform(ch, kind) == /\ cur' = ch /\ how' = kind /\ cres' = Diag(ch)
 ShiftBy(c) == how = "id" /\ c # 0 /\ Transform(ShiftChains(base, c), "shift")
 ScaleBy(k) == how = "id" /\ k # 1 /\ Transform(ScaleChains(base, k), "scale")
 \* rotation and transposition of the first two chains generate every permutation
-Reorder(kind) ==
-  LET M == Len(base)
-      perm == IF kind = "rot" THEN [j \in 1..M |-> (j % M) + 1]
-              ELSE [j \in 1..M |-> IF j = 1 THEN 2 ELSE IF j = 2 THEN 1 ELSE j]
-  IN how = "id" /\ M >= 2 /\ (kind = "rot" => M >= 3) /\ Transform(PermChains(base, perm), "perm")
+PermOf(kind, M) == IF kind = "rot" THEN [j \in 1..M |-> (j % M) + 1]
+                   ELSE [j \in 1..M |-> IF j = 1 THEN 2 ELSE IF j = 2 THEN 1 ELSE j]
+Reorder(kind) == /\ how = "id" /\ Len(base) >= 2 /\ (kind = "rot" => Len(base) >= 3)
+                 /\ Transform(PermChains(base, PermOf(kind, Len(base))), "perm")
 
-Next == \/ \E v \in 0..(shape[3] - 1) : Extend(v)
+MaxV == 4      \* values are 0..shape[3]-1 with shape[3] <= MaxV
+Next == \/ \E v \in 0..(MaxV - 1) : Extend(v)
         \/ \E c \in Shifts : ShiftBy(c)
         \/ \E k \in Scales : ScaleBy(k)
         \/ \E kind \in {"rot", "swap"} : Reorder(kind)
